@@ -18,6 +18,11 @@ GROUPS += [
 ]
 META = {'cex': {'self': True, 'timeout': 600}}
 
+GROUPS.append(dict(name='ms_copy_channel_in', cls='B', tu='C13_ms_copy_in.c', entry='h_ms_copy_in', dfcc=False, canary='real', expect_canaries=1, unwind=11, timeout=900, defines=['-U__SSE__', '-DVERIF_N=3'], cex=False,
+    functions=['opus_copy_channel_in_short', 'opus_copy_channel_in_int24', 'opus_copy_channel_in_float'],
+    bounds='3 samples per channel, source stride 1..3, any channel, destination stride 1..2, every int16 sample value',
+    what='multistream encoder input copies: the three sample formats give bit-identical internal samples; channel selection and stride'))
+
 # shared with C11 (same TU, same harness): only the assertions named in 'focus' are this property's; the others are decided under C11
 import copy as _copy
 from proofs import reg_C11 as _reg_C11
